@@ -114,11 +114,18 @@ package martian
 //@ ensures result != nil ==> result == old(asConnectErr(err).res) && result.Request == req && result.ProtoMajor == req.ProtoMajor && result.ProtoMinor == req.ProtoMinor
 //@ ensures result != nil ==> result.Header != nil && result.StatusCode >= 200 && result.StatusCode / 100 != 2
 
-// (the MITM filter is a user-supplied predicate)
-//@ func (*Proxy).shouldMITM
+// shouldMITM (C07): interception needs a MITM configuration and, when a filter
+// is set, the filter's consent for this request (forwarder: mitm-domains).
+//@ ghost fn filterSays(func(), *http.Request) bool
+//@ func type:func(*http.Request) bool as (req *http.Request) (result bool)
 //@ trusted
 //@ pure
-//@ ensures result ==> p.MITMConfig != nil
+//@ ensures result == filterSays(self, req)
+//@ func (*Proxy).shouldMITM
+//@ property C07 C13
+//@ requires p != nil
+//@ pure
+//@ ensures result == (p.MITMConfig != nil && (p.MITMFilter == nil || filterSays(p.MITMFilter, req)))
 
 //@ func (*bufio.Reader).Buffered
 //@ trusted
@@ -287,10 +294,12 @@ package martian
 
 // handleMITM: the 200 to the CONNECT is written and the CONNECT is reported
 // complete exactly once; no upstream is contacted on its behalf here.
+//@ ghost ivar nMITM() int
 //@ func (*proxyConn).handleMITM
-//@ property C13 C04
+//@ property C13 C04 C07
+//@ ghostset nMITM() := old(nMITM()) + 1
 //@ requires p != nil && p.Proxy != nil && p.conn != nil && p.brw != nil && p.brw.Writer != nil && p.brw.Reader != nil && p.MITMConfig != nil && req != nil && req.Method == "CONNECT" && req.URL != nil
-//@ modifies *, nWrote(), wroteStatus(), sawClosing(), wrotePA(), wErr()
+//@ modifies *, nWrote(), wroteStatus(), sawClosing(), wrotePA(), wErr(), nMITM()
 //@ preserves Proxy.* http.Request.Method
 //@ ensures nWrote() == old(nWrote()) + 1 || (sawClosing() && nWrote() == old(nWrote()))
 //@ ensures upstream() == old(upstream())
@@ -298,13 +307,17 @@ package martian
 // handleConnectRequest: a refused CONNECT contacts nobody and is reported once;
 // an accepted one is reported once as well (by the tunnel, the MITM hand-off
 // or the error/rejection response).
+// (C07: a CONNECT that the MITM filter excludes is never intercepted - it is
+// refused by a modifier or tunnelled)
 //@ func (*proxyConn).handleConnectRequest
-//@ property C13 C04
+//@ property C13 C04 C07
 //@ requires p != nil && p.Proxy != nil && p.conn != nil && p.brw != nil && p.brw.Writer != nil && p.brw.Reader != nil && req != nil && req.Method == "CONNECT" && req.URL != nil && req.Header != nil
-//@ modifies *, nWrote(), wroteStatus(), sawClosing(), modReqFailed(), upstream(), wrotePA(), wErr()
+//@ modifies *, nWrote(), wroteStatus(), sawClosing(), modReqFailed(), upstream(), wrotePA(), wErr(), nMITM()
 //@ preserves Proxy.*
 //@ ensures nWrote() == old(nWrote()) + 1 || (sawClosing() && nWrote() == old(nWrote()))
-//@ ensures modReqFailed() ==> upstream() == old(upstream()) && nWrote() == old(nWrote()) + 1
+//@ ensures !(old(p.MITMConfig) != nil && (old(p.MITMFilter) == nil || filterSays(old(p.MITMFilter), req))) ==> nMITM() == old(nMITM())
+//@ ensures nMITM() == old(nMITM()) || nMITM() == old(nMITM()) + 1
+//@ ensures modReqFailed() ==> upstream() == old(upstream()) && nWrote() == old(nWrote()) + 1 && nMITM() == old(nMITM())
 //@ ensures upstream() <= old(upstream()) + 1
 
 // handle: every request that was read (and not dropped because of shutdown)
@@ -313,7 +326,7 @@ package martian
 //@ func (*proxyConn).handle
 //@ property C13 C04 C11
 //@ requires p != nil && p.Proxy != nil && p.conn != nil && p.brw != nil && p.brw.Writer != nil && p.brw.Reader != nil
-//@ modifies *, nRead(), nWrote(), wroteStatus(), sawClosing(), modReqFailed(), upstream(), readOK(), wrotePA(), wErr()
+//@ modifies *, nRead(), nWrote(), wroteStatus(), sawClosing(), modReqFailed(), upstream(), readOK(), wrotePA(), wErr(), nMITM()
 //@ ensures nRead() == old(nRead()) + 1
 //@ ensures readOK() && !sawClosing() ==> nWrote() == old(nWrote()) + 1
 //@ ensures !readOK() ==> nWrote() == old(nWrote()) && upstream() == old(upstream())
